@@ -131,6 +131,17 @@ func scanOutDeg(c *core.Ctx) []ob {
 				if before != nil && call.Pos() > before.Pos() {
 					return true
 				}
+				// a helper of the module that resizes the element it receives there to constant degrees on every
+				// path of its body (`c2 = eval.tensorReceiver(relin, level, opOut)`)
+				if hf := calleeFunc(info, call); hf != nil {
+					if hd, isMod := byFn[funcOrigin(hf)]; isMod && !hd.fd.Name.IsExported() {
+						for ai, a := range call.Args {
+							if identObj(info, unparen(a)) == x && helperResizesConst(hd.pk.TypesInfo, hd.fd, ai) {
+								ok = true
+							}
+						}
+					}
+				}
 				sel, isSel := unparen(call.Fun).(*ast.SelectorExpr)
 				if !isSel || sel.Sel.Name != "Resize" {
 					return true
@@ -624,6 +635,22 @@ func scanResizeFirst(c *core.Ctx) []ob {
 				if !ok {
 					return true
 				}
+				// a helper that resizes what it receives there on every path of its body
+				if hf := calleeFunc(info, call); hf != nil && hf.Pkg() == pk.Types && !hf.Exported() {
+					for _, f2 := range pk.Syntax {
+						for _, d2 := range f2.Decls {
+							hd, ok := d2.(*ast.FuncDecl)
+							if !ok || hd.Body == nil || info.Defs[hd.Name] != types.Object(funcOrigin(hf)) {
+								continue
+							}
+							for ai, a := range call.Args {
+								if identObj(info, unparen(a)) == x && helperResizesConst(info, hd, ai) && (firstResize == token.NoPos || call.Pos() < firstResize) {
+									firstResize = call.Pos()
+								}
+							}
+						}
+					}
+				}
 				if sel, ok := unparen(call.Fun).(*ast.SelectorExpr); ok && sel.Sel.Name == "Resize" {
 					base := unparen(sel.X)
 					if c2, isC := base.(*ast.CallExpr); isC {
@@ -684,4 +711,72 @@ func init() {
 			}
 			return out
 		}})
+}
+
+// helperResizesConst: every path through the body of the helper resizes its idx-th parameter to a constant degree
+// (the statement list contains such a Resize, or an if whose arms all do).
+func helperResizesConst(info *types.Info, fd *ast.FuncDecl, idx int) bool {
+	var p types.Object
+	i := 0
+	for _, fl := range fd.Type.Params.List {
+		for _, nm := range fl.Names {
+			if i == idx {
+				p = info.Defs[nm]
+			}
+			i++
+		}
+	}
+	if p == nil {
+		return false
+	}
+	isResize := func(st ast.Stmt) bool {
+		es, ok := st.(*ast.ExprStmt)
+		if !ok {
+			return false
+		}
+		call, ok := es.X.(*ast.CallExpr)
+		if !ok || len(call.Args) < 1 {
+			return false
+		}
+		sel, ok := unparen(call.Fun).(*ast.SelectorExpr)
+		if !ok || sel.Sel.Name != "Resize" {
+			return false
+		}
+		base := unparen(sel.X)
+		if c2, isC := base.(*ast.CallExpr); isC {
+			if s2, isS := unparen(c2.Fun).(*ast.SelectorExpr); isS && s2.Sel.Name == "El" {
+				base = unparen(s2.X)
+			}
+		}
+		if identObj(info, base) != p {
+			return false
+		}
+		tv, ok := info.Types[call.Args[0]]
+		return ok && tv.Value != nil
+	}
+	var all func(list []ast.Stmt) bool
+	all = func(list []ast.Stmt) bool {
+		for _, st := range list {
+			if isResize(st) {
+				return true
+			}
+			if is, ok := st.(*ast.IfStmt); ok {
+				thenOK := all(is.Body.List)
+				switch e := is.Else.(type) {
+				case *ast.BlockStmt:
+					if thenOK && all(e.List) {
+						return true
+					}
+				case nil:
+					// `if c { Resize; return }` followed by the other arm
+					if thenOK && terminates(is.Body.List) {
+						continue
+					}
+				}
+			}
+		}
+		return false
+	}
+	// with an early-returning arm, the rest of the list must resize as well
+	return all(fd.Body.List)
 }
